@@ -271,6 +271,32 @@ def trace_isa(args):
     return {"isa": modname, "traces": traces, "modes": len(modes)}
 
 
+def macro_sources(args):
+    """T (ia32 macro): the format strings as written in the x86 / x64 spec files (arguments of
+    @ispec_ia32) and the formats of the registered objects of the same cpu module"""
+    import re
+    modname = args
+    quiet()
+    try:
+        M, d, modes = isa_specs(modname)
+    except Exception as e:
+        return {"isa": modname, "error": "%s: %s" % (type(e).__name__, e), "origs": [], "formats": []}
+    files, formats = set(), set()
+    for mode, specs in modes:
+        for s in specs:
+            formats.add(s.format)
+            m = sys.modules.get(getattr(s.hook, "__module__", ""))
+            if m is not None and getattr(m, "__file__", None):
+                files.add(m.__file__)
+    origs = []
+    for f in sorted(files):
+        with open(f) as fh:
+            src = fh.read()
+        for mo in re.finditer(r'@ispec_ia32\(\s*"([^"\\]*)"', src):
+            origs.append(mo.group(1))
+    return {"isa": modname, "origs": sorted(set(origs)), "formats": sorted(formats)}
+
+
 # ---------------------------------------------------------------------------------------------------
 # G: spec -> code
 
